@@ -25,7 +25,7 @@ RULE = (
     "null-admitting, literal or union-typed; distinct = (class, property)"
 )
 
-PY_BASE = {"string": str, "DocumentUri": str, "URI": str, "integer": int, "uinteger": int, "decimal": float, "boolean": bool}
+PY_BASE = {"string": str, "DocumentUri": str, "URI": str, "RegExp": str, "integer": int, "uinteger": int, "decimal": float, "boolean": bool}
 
 
 class Mapper:
@@ -130,7 +130,7 @@ def expected_validator(p: dict) -> Any:
             base = ("fn", "validators", "integer_validator")
         elif n == "uinteger":
             base = ("fn", "validators", "uinteger_validator")
-        elif n in ("string", "DocumentUri", "URI"):
+        elif n in ("string", "DocumentUri", "URI", "RegExp"):
             base = ("instance_of", str)
         elif n == "boolean":
             base = ("instance_of", bool)
@@ -151,8 +151,8 @@ def camel_from_attr(name: str) -> str:
     return parts[0] + "".join(x[:1].upper() + x[1:].lower() for x in parts[1:])
 
 
-def run(ctx: Ctx) -> None:
-    sub = valuecheck.subject()
+def run(ctx: Ctx, sub=None, dynamic: bool = True) -> None:
+    sub = sub or valuecheck.subject()
     m, t = sub.model, sub.types
     mp = Mapper(sub)
     evaluations = 0
@@ -321,6 +321,8 @@ def run(ctx: Ctx) -> None:
     dyn = 0
     n_per = 2 if ctx.quick else 10
 
+    if not dynamic:
+        targets = []
     for idx, (name, p) in enumerate(targets):
         strat = tvgen.value_strategy(sub.objects, ("struct", name), tvgen.GenCfg(decimal_ints=False, route=[f"struct:{p['_declared_in']}.{p['name']}"]))
 
